@@ -119,9 +119,6 @@ impl NsGen {
             self.alpha(rng)
         };
         let path = Self::decorate(rng, Self::join(&pre, &name));
-        if is_panicky(last_component(&path)) {
-            return false;
-        }
         if let Resolved::Found { key, .. } = self.cx.resolve(&base, &path) {
             if self.cx.is_live(&key) {
                 return false;
@@ -301,7 +298,7 @@ impl NsGen {
             }
         }
         let last = last_component(&dst);
-        if is_panicky(last) || last == "." || last == ".." {
+        if last == "." || last == ".." {
             return false;
         }
         // moving a directory into itself loses the subtree (known defect F3): keep it rare
@@ -424,16 +421,20 @@ fn random_history(id: String, seed: u64, cat: &Catalogue, rng: &mut SplitMix64, 
     if !g.cx.dead {
         match rng.below(25) {
             0 | 1 => {
-                // known defect F5: these names panic; the history ends dead, after its listings
+                // edge names (these used to panic: defect F5); a regression ends the history dead, after its listings
                 let name = rng.pick(&PANICKY).to_string();
                 match rng.below(3) {
                     0 => {
                         let f = g.cx.new_f();
-                        g.cx.step(Op::CreateFile { d: 0, path: name.into_bytes(), new: f });
+                        if g.cx.step(Op::CreateFile { d: 0, path: name.into_bytes(), new: f }).is_ok() {
+                            g.cx.step(Op::DropF(f));
+                        }
                     }
                     1 => {
                         let d = g.cx.new_d();
-                        g.cx.step(Op::CreateDir { d: 0, path: name.into_bytes(), new: d });
+                        if g.cx.step(Op::CreateDir { d: 0, path: name.into_bytes(), new: d }).is_ok() {
+                            g.cx.step(Op::DropD(d));
+                        }
                     }
                     _ => {
                         let src = g.cx.all_files().first().map(|x| x.1.clone()).unwrap_or("nothing".to_string());
@@ -441,6 +442,7 @@ fn random_history(id: String, seed: u64, cat: &Catalogue, rng: &mut SplitMix64, 
                     }
                 }
                 if !g.cx.dead {
+                    g.cx.step(Op::List(0));
                     g.cx.step(Op::Unmount);
                 }
             }
@@ -529,7 +531,7 @@ fn exhaustive_history(id: String, seed: u64, vol: &VolCfg, seq: &[XOp], sink: &m
     cx.finish(sink);
 }
 
-/// Short dedicated histories around the names that make the library panic (known defect F5).
+/// Short dedicated histories around the edge names that used to make the library panic (defect F5, fixed).
 fn panic_history(id: String, seed: u64, cat: &Catalogue, rng: &mut SplitMix64, sink: &mut Sink) {
     let vol = rng.pick(&cat.tiny).clone();
     let mut cx = Ctx::new(id, "ns", seed, vol, Cfg::default_build());
